@@ -30,6 +30,11 @@ def _worker(args):
         mod = load_check(pid)
         if hasattr(mod, 'setup'):
             mod.setup(True)
+        # every execution of the harness starts from the process-level state of a fresh interpreter (module- and
+        # class-level containers and caches of the repo's modules as they are right after import)
+        from vxlib import sweep
+        sweep.snapshot_state()
+        sxrun.BEFORE_PATH[:] = [sweep.reset_state]
         r = sxrun.explore(mod.run, st, **opts)
         r['index'] = idx
         return r
@@ -109,6 +114,8 @@ def main(pid, tier, jobs=None):
     # 2. exploration
     if hasattr(mod, 'setup'):
         mod.setup(True)
+    from vxlib import sweep
+    sweep.snapshot_state()          # pristine process-level state of the repo's modules, inherited by the workers
     structures = mod.structures(tier)
     only = os.environ.get('VX_ONLY')          # debugging aid: VX_ONLY=kind=long keeps the structures with that key/value
     if only:
